@@ -1273,7 +1273,10 @@ def r12_generated_rule_names(a, tier):
         'by that name, so two rules that share it are one rule to the engine while the model keeps them apart',
         floor=1,
     )
-    wrapper_fn = a.p.functions.get('tatsu.contexts.decorator.rule.__rule_wrapper')
+    # the function behind @tatsu.rule that builds the RuleInfo of a method (whatever it is called)
+    dmod = a.p.modules.get('tatsu.contexts.decorator.rule')
+    wrapper_fn = next((f for f in (dmod.functions.values() if dmod else ()) if any(
+        isinstance(x, ast.Call) and dotted(x.func).endswith('RuleInfo.new') for x in walk_no_defs(f.node))), None)
     sn = a.p.functions.get('tatsu.util.strtools.safe_name')
     if wrapper_fn is None or sn is None:
         raise AnalysisError('C02.R12: the rule decorator / safe_name not found')
